@@ -39,6 +39,7 @@ class AReq:
         self.conn = conn                   # Connection header value or None
         self.ows = ows or {}               # index -> (before value, after value)
         self.extra_first = []              # framing-related headers as sent, for the oracle
+        self.trailer = b"X-Trailer: v"     # used by chunk_style 4
 
     def all_headers(self):
         """(name, value) pairs as sent, in order."""
@@ -75,7 +76,10 @@ class AReq:
                 out += h.encode() + b"\r\n" + self.body[pos:pos + sz] + b"\r\n"
                 pos += sz
             assert pos == len(self.body), (pos, len(self.body))
-            last = {0: b"0", 1: b"0", 2: b"0000", 3: b"0;last"}[self.chunk_style]
+            last = {0: b"0", 1: b"0", 2: b"0000", 3: b"0;last", 4: b"0"}[self.chunk_style]
+            if self.chunk_style == 4:
+                # a trailer section (RFC 7230 4.1.2): known finding D10
+                return out + last + b"\r\n" + self.trailer + b"\r\n\r\n"
             return out + last + b"\r\n\r\n"
         if self.framing == "upgrade":
             return self.body
